@@ -3,3 +3,4 @@ open GoRedis
 #print axioms C20_balanced
 #print axioms C20_executor_balanced
 #print axioms C20_request_block
+#print axioms C20_source_conn_loop_is_the_modelled_one
